@@ -15,7 +15,7 @@ from vlib.core import Stage, fail
 ID = "C14"
 MANIFEST = {
     "category": "exploration",
-    "text": "Generated-input search with a metamorphic oracle: deep AHBs in which SOLL (all spellings and letter cases) is forced to occur at groups, segments and free-text data elements x content evaluation results x both flag values. The full ValidationResultInContext list of validate_deep_anwendungshandbuch(tree, flag) must equal the one for the tree with every SOLL rewritten to MUSS (flag True) resp. KANN (flag False), under either flag value; or all three raise NotImplementedError. The same relation is checked for validate_segment_level / validate_segment on drawn sub-trees. For flag True the same calls are repeated with the argument left out (documented default True) at validate_deep_anwendungshandbuch, validate_segment_level and validate_segment_group.",
+    "text": "Generated-input search with a metamorphic oracle: deep AHBs in which SOLL (all spellings and letter cases) is forced to occur at groups, segments and free-text data elements x content evaluation results x both flag values. The full ValidationResultInContext list of validate_deep_anwendungshandbuch(tree, flag) must equal the one for the tree with every SOLL rewritten to MUSS (flag True) resp. KANN (flag False), under either flag value; or all three raise NotImplementedError. The same relation is checked for validate_segment_level / validate_segment on drawn sub-trees. For flag True the same calls are repeated with the argument left out (documented default True) at validate_deep_anwendungshandbuch, validate_segment_level and validate_segment_group. Free-text elements carry maus value types (absent / TEXT / DATETIME); in half of the cases up to three SOLL elements get a neighbour in the same segment that is written exactly as the rewriting will write them (same condition text, same input, other value type), so that the rewritten AHB contains elements that coincide in expression and input.",
     "note": "Trusted: the indicator rewrite (done on the structured parts, re-rendered by the same renderer) and attrs equality of the result objects. No reference model is involved. Process configuration by shard (vlib/sut.py; recorded in replay files): plain / parse caches preheated beyond their size / warnings attributed to ahbicht raised as errors / logging fully enabled with every record rendered; one event loop per process or a new one per call; five process time zones; the hash seed is the shard number; namesakes of ahbicht's marshmallow schema classes are registered.",
     "technique": "property-based testing with a metamorphic relation (flag value vs rewritten indicators)",
 }
@@ -176,6 +176,8 @@ def classify(case, info):
         labels.append("flag-visible-at-free-text")
     if info["visible_level"]:
         labels.append("flag-visible-at-segment-level")
+    if case.get("twins"):
+        labels.append("elements-that-coincide-after-rewriting")
     return labels, info["visible_ft"] > 0
 
 
@@ -186,7 +188,21 @@ def strategy(tier):
     def build(draw):
         tree = draw(vtree.g_tree(max_nodes=bounds["max_nodes"], max_depth=bounds["max_depth"], soll_bias=True))
         cer = draw(vtree.g_cer(weights=draw(st.sampled_from(["FFFU", "F", "FFFFUK", "FUK"]))))
-        return {"tree": tree, "cer": cer, "flag": draw(st.booleans()), "sub": draw(st.integers(0, 200))}
+        flag = draw(st.booleans())
+        twins = 0
+        if draw(st.booleans()):
+            # next to a free-text element with SOLL stands one that is written the way the rewriting will write the
+            # first: same condition, same input, but another data type - the two stay two elements in either AHB
+            for kind, node, _ in vtree.nodes(tree):
+                if kind == "seg":
+                    for element in list(node["des"]):
+                        if (element["t"] == "ft" and twins < 3 and draw(st.booleans())
+                                and any(ref.normalise_indicator(p[0]) == "SOLL" for p in element["expr"]["parts"])):
+                            twin = {**element, "d": element["d"] + "-twin", "expr": rewrite_expr(element["expr"], flag),
+                                    "vt": "DATETIME" if element.get("vt") in (None, "TEXT") else "TEXT"}
+                            node["des"].insert(node["des"].index(element) + draw(st.sampled_from([0, 1])), twin)
+                            twins += 1
+        return {"tree": tree, "cer": cer, "flag": flag, "sub": draw(st.integers(0, 200)), "twins": twins}
 
     return build()
 
